@@ -20,6 +20,7 @@ FUNCTIONS = [
     'src.graph_utils.none_reachable',
     'src.graph_utils.none_connected',
     'src.graph_utils.find_sources',
+    'src.graph_utils.find_all_paths',
     'src.graph_utils.find_longest_paths.exist',
     'src.graph_utils.find_longest_paths',
 ]
@@ -29,12 +30,13 @@ TRUSTED = [
     '(lean/Reach.lean; not used across contracts)',
 ]
 ASSUMPTIONS = [
-    'find_all_paths and find_all_reachable are NOT proved: bounded stand-in only (exhaustive over all digraphs up to '
-    'the stated vertex count, self-loops and non-key targets included)',
-    'find_longest_paths is proved relative to the (unverified) result of find_all_paths: its result is exactly the '
-    'elements of that list which are not a proper prefix of another element',
+    'find_all_reachable is NOT proved: bounded stand-in only (exhaustive over all digraphs up to the stated vertex '
+    'count, self-loops and non-key targets included); find_all_paths is proved partially correct (exactly the simple '
+    'paths extending the given prefix; termination is not proved)',
+    'find_longest_paths: its result is exactly the elements of find_all_paths(graph, vertex) which are not a proper '
+    'prefix of another element',
 ]
-NOT_UNDER_CONTRACT = ['src.graph_utils.find_all_paths (bounded)', 'src.graph_utils.find_all_reachable (bounded)',
+NOT_UNDER_CONTRACT = ['src.graph_utils.find_all_reachable (bounded)',
                       'src.analysis.type_dependency_analysis.is_combination_feasible (only consumes dfs; meaning is C03 residual)']
 
 
